@@ -1496,9 +1496,13 @@ impl noq::UdpSender for Sender {
                 }
             }
             MultipathMappedAddr::Ip(socket_addr) => {
-                // Ensure IPv6 mapped addresses are converted back
-                let socket_addr =
-                    SocketAddr::new(socket_addr.ip().to_canonical(), socket_addr.port());
+                // Ensure IPv6 mapped addresses are converted back.  A genuine IPv6 address
+                // is kept as is: its scope id selects the socket for link-local
+                // destinations and is needed to actually reach them.
+                let socket_addr = match socket_addr.ip().to_canonical() {
+                    ip @ std::net::IpAddr::V4(_) => SocketAddr::new(ip, socket_addr.port()),
+                    std::net::IpAddr::V6(_) => socket_addr,
+                };
                 FourTuple::Ip {
                     remote: socket_addr,
                     local: noq_transmit.src_ip,
